@@ -21,7 +21,7 @@ import copy
 import random
 import shutil
 
-from ..core       import Result, digest
+from ..core       import Result, digest, pid_space_small
 from ..harness    import rp, ru, rps, rpc
 from ..schedsim   import Sim, gen_layout, gen_task
 from ..schedprops import Progress, Conservation, Ledger, gen_case as gen_sched_case
@@ -359,7 +359,10 @@ def judge_exec(sim, rec, res, case):
                   else rps.DONE
             if sim.case['spawner'] == 'NOOP':
                 exp = rps.FAILED if spec['poison'] else rps.DONE
-            if final != exp:
+            if final != exp and h.get('exit_code') in (-9, -15) and \
+                    pid_space_small():
+                res.count('possible_pid_reuse_not_judged')
+            elif final != exp:
                 res.violation('bystander-outcome-changed', '%s: %s, scripted '
                               '%s' % (uid, final, exp), ctx)
             if r['unschedules'] != 1:
@@ -369,9 +372,109 @@ def judge_exec(sim, rec, res, case):
 
 # ------------------------------------------------------------------------------
 #
+# ------------------------------------------------------------------------------
+# (c) client stage: who does the request name?
+#
+_TSTATES = [rps.NEW, rps.TMGR_SCHEDULING_PENDING, rps.TMGR_SCHEDULING,
+            rps.TMGR_STAGING_INPUT_PENDING, rps.AGENT_STAGING_INPUT_PENDING,
+            rps.AGENT_SCHEDULING, rps.AGENT_EXECUTING_PENDING,
+            rps.AGENT_EXECUTING, rps.AGENT_STAGING_OUTPUT_PENDING,
+            rps.TMGR_STAGING_OUTPUT_PENDING, rps.DONE, rps.FAILED,
+            rps.CANCELED]
+_FINAL   = (rps.DONE, rps.FAILED, rps.CANCELED)
+
+
+def client_case(rng):
+    n      = rng.randint(2, 7)
+    states = [rng.choice(_TSTATES) for _ in range(n)]
+    form   = rng.choice(['all', 'str', 'list', 'list', 'task.cancel',
+                         'only-final', 'with-final'])
+    return {'states': states, 'form': form, 'seed': rng.randint(0, 2 ** 30)}
+
+
+def run_client_case(case, res):
+    from ..harness import make_tmgr, make_task
+    crng  = random.Random(case['seed'])
+    tm    = make_tmgr()
+    tm2   = make_tmgr(uid='tmgr.0001')         # another manager's tasks
+    uids  = ['t.%d' % i for i in range(len(case['states']))]
+    tasks = dict()
+    for uid, st in zip(uids, case['states']):
+        tasks[uid] = make_task(tm, uid)
+        if st != rps.NEW:
+            tm._update_tasks([{'uid': uid, 'type': 'task', 'state': st}])
+    other = make_task(tm2, 'o.0')
+    final    = [u for u in uids if tasks[u].state in _FINAL]
+    nonfinal = [u for u in uids if tasks[u].state not in _FINAL]
+
+    form = case['form']
+    if form == 'only-final' and not final   : form = 'list'
+    if form == 'with-final' and not final   : form = 'list'
+    if   form == 'all'        : req, exp = None, list(uids)
+    elif form == 'str'        : req = crng.choice(uids); exp = [req]
+    elif form == 'task.cancel': req = crng.choice(uids); exp = [req]
+    elif form == 'only-final' : req = crng.sample(final, crng.randint(1, len(final))); exp = req
+    elif form == 'with-final' :
+        req = crng.sample(final, 1) + crng.sample(nonfinal, min(len(nonfinal),
+                                                  crng.randint(0, 2)))
+        crng.shuffle(req); exp = req
+    else:
+        req = crng.sample(uids, crng.randint(1, len(uids))); exp = req
+
+    before = {u: t.state for u, t in tasks.items()}
+    pub    = tm._publishers[rpc.CONTROL_PUBSUB]
+    n0     = len(pub.msgs)
+    ctx    = {'case': case, 'requested': req, 'form': form, 'states': before}
+    try:
+        if form == 'task.cancel': tasks[req].cancel()
+        elif req is None        : tm.cancel_tasks()
+        else                    : tm.cancel_tasks(req)
+    except Exception as e:
+        res.violation('cancel-request-raised', '%r' % e, ctx)
+        return
+    res.count('client_requests_checked')
+    res.see('client_request_forms', form)
+    named = list()
+    for m in pub.msgs[n0:]:
+        if m.get('cmd') == 'cancel_tasks':
+            named += list(m['arg']['uids'])
+            if not m.get('fwd'):
+                res.violation('cancel-request-not-forwarded',
+                              'the request does not carry the forward flag: '
+                              'no pilot will see it', ctx)
+    ctx['named'] = named
+    extra   = sorted(set(named) - set(exp))
+    # a named task which is final already cannot be stopped any more: leaving
+    # it out of the message is fine, naming anybody else is not
+    missing = sorted(u for u in set(exp) - set(named)
+                     if before[u] not in _FINAL)
+    if extra:
+        res.violation('request-names-bystanders',
+                      'cancel request for %s names %s as well'
+                      % (exp if req is not None else 'all tasks', extra), ctx)
+    if missing:
+        res.violation('request-omits-named-task',
+                      'cancel request for %s does not name %s'
+                      % (exp, missing), ctx)
+    if tm2._publishers[rpc.CONTROL_PUBSUB].msgs:
+        res.violation('request-on-other-manager', 'another task manager '
+                      'published something', ctx)
+    for u, t in tasks.items():
+        if before[u] in _FINAL and t.state != before[u]:
+            res.violation('final-task-changed-by-cancel',
+                          '%s: %s -> %s' % (u, before[u], t.state), ctx)
+
+
 def run(ctx):
     from . import c07
     res = Result()
+
+    rng = ctx.rng('client')
+    for i in range(ctx.n(3000, 60000)):
+        case = client_case(rng)
+        run_client_case(case, res)
+        if len(res.violations) > 40:
+            break
 
     rng = ctx.rng('sched')
     for i in range(ctx.n(1600, 40000)):
@@ -412,7 +515,9 @@ def replay(case, ctx):
     from . import c07
     res = Result()
     c = case.get('case')
-    if c and 'layout' in c:
+    if c and 'form' in c and 'states' in c:
+        run_client_case(c, res)
+    elif c and 'layout' in c:
         w = sched_history(ctx, c, True,  res)
         n = sched_history(ctx, c, False, res)
         judge_sched(c, res, w, n)
